@@ -1615,6 +1615,111 @@ func (c *c07Case) genRawAllocs(t int) []c07Alloc {
 	return out
 }
 
+// extension 6: fillGPUTotalMem called directly (as Plugin.allocate calls it on the allocator's answer) on 1-3 entries over
+// ARBITRARY minors (known, unknown, unhealthy / zero devices, the same minor twice) of the GPU inventory of this moment,
+// whose abstract per-device totals differ.  Read-only on the ledger.  Observation: error, or every entry with key presence.
+func (c *c07Case) fillProbe() {
+	h, r := c.h, c.r
+	nd := c.nd()
+	if nd == nil {
+		return
+	}
+	var req c07Vec = c07Absent
+	if r.Chance(2, 3) {
+		req[0] = int64(r.Pick([]int64{0, 20, 100}))
+	}
+	mode := r.Intn(8) // 0-2 ratio only, 3-5 bytes only, 6 both, 7 neither
+	switch {
+	case mode <= 2:
+		req[2] = int64(r.Pick([]int64{0, 10, 33, 50, 100, 150}))
+	case mode <= 5:
+		req[1] = int64(r.Pick([]int64{0, 1, 4, 8, 16, 40, 80, 200}))
+	case mode == 6:
+		req[1], req[2] = int64(r.Range(0, 80)), int64(r.Range(0, 100))
+	}
+	n := r.Range(1, 3)
+	var ms []int
+	for i := 0; i < n; i++ {
+		if r.Chance(1, 6) {
+			ms = append(ms, r.Intn(8))
+		} else {
+			ms = append(ms, c.inv[0][r.Intn(len(c.inv[0]))].minor)
+		}
+	}
+	// memoryBytesToRatio on a device that exposes no gpu-memory divides by zero (int64(+Inf) is platform-defined): bytes-only
+	// probes are sent to devices with gpu-memory > 0 only
+	if req[1] >= 0 && req[2] < 0 {
+		for _, m := range ms {
+			if row := c.cur.rows[[2]int{0, m}]; row != nil && row.t != (c07Vals{}) && row.t[1] <= 0 {
+				req[1], req[2] = -1, 50
+				break
+			}
+		}
+	}
+	al := apiext.DeviceAllocations{schedulingv1alpha1.GPU: {}}
+	for _, m := range ms {
+		al[schedulingv1alpha1.GPU] = append(al[schedulingv1alpha1.GPU], &apiext.DeviceAllocation{Minor: int32(m), Resources: c07RL(0, req)})
+	}
+	h.Op("fill %s %s", c07IntsTok(ms), req.tok())
+	var err error
+	if h.Guard(func() {
+		nd.lock.RLock()
+		defer nd.lock.RUnlock()
+		err = fillGPUTotalMem(al, nd)
+	}) {
+		h.Obs("panic")
+		return
+	}
+	h.Tag("entry:fillGPUTotalMem")
+	if err != nil {
+		h.Obs("fill err")
+		h.Tag("fill:error")
+		// oracle: refused only if some entry names a device that is unknown or has nothing (unhealthy)
+		bad := false
+		for _, m := range ms {
+			if row := c.cur.rows[[2]int{0, m}]; row == nil || row.t == (c07Vals{}) {
+				bad = true
+			}
+		}
+		if !bad {
+			h.Fail("C07:fill-refused-healthy-devices", "fillGPUTotalMem refused %v on minors %v although every one of them is a known non-zero device: %v", req, ms, err)
+		}
+		return
+	}
+	g := c07GroupsOf(al)[0]
+	o := strconv.Itoa(len(g))
+	for _, a := range g {
+		o += fmt.Sprintf(" %d %s", a.minor, a.vec.tok())
+	}
+	h.Obs("fill %s", o)
+	h.Tag(fmt.Sprintf("fill:ok:%d-entries", len(g)))
+	ts := map[int64]bool{}
+	for i, a := range g {
+		if i >= len(ms) || a.minor != ms[i] {
+			h.Fail("C07:fill-entry-moved", "entry %d of %v came back on minor %d", i, ms, a.minor)
+			return
+		}
+		row := c.cur.rows[[2]int{0, a.minor}]
+		if row == nil || row.t == (c07Vals{}) {
+			h.Fail("C07:fill-accepted-bad-device", "fillGPUTotalMem accepted an entry on minor %d, which is unknown or zero", a.minor)
+			return
+		}
+		ts[row.t[1]] = true
+		for k := 0; k < c07D; k++ {
+			if req[k] >= 0 && a.vec[k] != req[k] {
+				h.Fail("C07:alloc-unsound:amount", "fillGPUTotalMem changed the requested dimension %d of %v to %v on GPU %d", k, req, a.vec, a.minor)
+				return
+			}
+		}
+		if !c07MemPairCheck(h, fmt.Sprintf("fillGPUTotalMem(%v x %v)", ms, req), a.minor, req, a.vec, row.t[1], row.tp[1]) {
+			return
+		}
+	}
+	if len(ts) > 1 {
+		h.Tag("fill:entries-on-different-memory-sizes")
+	}
+}
+
 func TestVerifC07(t *testing.T) {
 	h := vOpen("C07")
 	if h == nil {
@@ -1659,6 +1764,10 @@ func TestVerifC07(t *testing.T) {
 		}
 		c.genInventory(true)
 		c.applyInventory(false)
+		gpuInPlay := false
+		for _, tt := range c.inPlay {
+			gpuInPlay = gpuInPlay || tt == 0
+		}
 		steps := r.Range(4, 12)
 		if h.Tier == "thorough" && r.Chance(1, 10) {
 			steps = r.Range(12, 30)
@@ -1820,13 +1929,17 @@ func TestVerifC07(t *testing.T) {
 				c.doAdd("raw-add", p, g)
 				h.Tag("op:raw-add")
 			}
+			if gpuInPlay && len(c.inv[0]) > 0 && r.Chance(1, 6) {
+				c.fillProbe()
+			}
 		}
 		if commits > 0 || updates > 0 {
 			h.Nontrivial()
 		}
 		h.End()
 	}
-	h.Close("one history per case on one node: inventory of 1-5 devices per type (gpu/rdma/fpga, 1-3 resource dimensions, unhealthy and zero devices), " +
+	h.Close("extension 6: after 1 step in 6 (GPU in play) a fillGPUTotalMem probe on 1-3 arbitrary minors x a request with bytes only / ratio only / both / neither, compared with the model's fillGPU and judged by the memory-pair clause; " +
+		"one history per case on one node: inventory of 1-5 devices per type (gpu/rdma/fpga, 1-3 resource dimensions, unhealthy and zero devices), " +
 		"then 4-12 (thorough: up to 30) ops: allocate (allocateDevices or AutopilotAllocator; fractional/whole/multi-device, required/preferred minors, " +
 		"preemption/reservation view, nil/least/most scorer) + commit, release, duplicate add, removal of an absent pod, re-delivered update, pod update with a CHANGED allocation annotation " +
 		"(moved minor / other amounts / type or device appears / disappears / annotation appears on an unknown pod, old object unassigned; then resync and delete), inventory refresh / invalidation; " +
@@ -2418,7 +2531,10 @@ func TestVerifC07Path(t *testing.T) {
 	}
 	h.Close("real scheduling path on one node with 1-4 GPUs (16/80 units of memory, unhealthy devices): 3-9 steps of PreFilter+Filter+Reserve of a pod whose SPEC requests " +
 		"nvidia.com/gpu, koordinator.sh/gpu, gpu-core+gpu-memory-ratio (single, fractional, multi-GPU), gpu-memory-ratio only, gpu-core+gpu-memory; informer confirmation, Unreserve, pod deletion, health refresh; " +
-		"VERIF_C07_HETERO / VERIF_C07_STALE add heterogeneous GPUs / foreign annotation edits. non-trivial = at least one pod was reserved; distinct by op list")
+		"VERIF_C07_HETERO / VERIF_C07_STALE add heterogeneous GPUs / foreign annotation edits. " +
+		"extension 6: 1 case in 3 (VERIF_C07_MIXMEM) has 2-4 GPUs of at least two of the memory sizes 16Gi / 32Gi / 80Gi, four more multi-GPU shapes (ratio 200 / 300; gpu.shared n + bytes; gpu.shared n + core + ratio; gpu.shared n + core + bytes), " +
+		"1 in 3 of those directed (two whole GPUs, then byte-only / ratio-only pods); every committed entry is compared with the model's fillGPU (`fill`) and judged by the memory-pair clause. " +
+		"non-trivial = at least one pod was reserved; distinct by op list")
 }
 
 
